@@ -1398,6 +1398,10 @@ func (s *State) exec(in ssa.Instruction) {
 	case *ssa.MakeSlice:
 		n := s.valueOf(in.Len).Terms[0]
 		s.oblige("safety", "makeslice-len", []string{"C19"}, app("<=", "0", n), where, "")
+		// runtime.makeslice panics when len > cap or cap*elemsize exceeds the allocation limit
+		cp := s.valueOf(in.Cap).Terms[0]
+		esz := sizeofType(in.Type().Underlying().(*types.Slice).Elem())
+		s.oblige("safety", "makeslice-cap", []string{"C19"}, and(app("<=", n, cp), app("<=", cp, fmt.Sprint(281474976710656/esz))), where, "make: cap out of range or smaller than len")
 		z := zeroVal(in.Type())
 		z.Terms[0] = n
 		z.Terms[1] = "false"
